@@ -1025,6 +1025,18 @@ static std::ostream& print_double(std::ostream& os, double value)
     return os;
 }
 
+/**
+ * Prints "name:type" for the variable bound by a quantifier, with the type in declaration syntax. The builder
+ * stores the type under a const prefix, which is not part of the binder syntax.
+ */
+static std::ostream& print_binder(std::ostream& os, const symbol_t& symbol)
+{
+    auto type = symbol.get_type();
+    while (type.get_kind() == CONSTANT)
+        type = type.get(0);
+    return type.print_declaration(os << symbol.get_name() << ':');
+}
+
 /** Prints "; N" for an explicit number of runs of an SMC query, nothing if it was left out (encoded as -1). */
 static std::ostream& print_number_of_runs(std::ostream& os, const expression_t& runs)
 {
@@ -1511,17 +1523,17 @@ std::ostream& expression_t::print(std::ostream& os, bool old) const
         break;
 
     case FORALL:
-        os << "forall(" << get(0).get_symbol().get_name() << ':' << get(0).get_symbol().get_type().str() << ") ";
+        print_binder(os << "forall(", get(0).get_symbol()) << ") ";
         get(1).print(os, old);
         break;
 
     case EXISTS:
-        os << "exists(" << get(0).get_symbol().get_name() << ':' << get(0).get_symbol().get_type().str() << ") ";
+        print_binder(os << "exists(", get(0).get_symbol()) << ") ";
         get(1).print(os, old);
         break;
 
     case SUM:
-        os << "sum(" << get(0).get_symbol().get_name() << ':' << get(0).get_symbol().get_type().str() << ") ";
+        print_binder(os << "sum(", get(0).get_symbol()) << ") ";
         get(1).print(os, old);
         break;
 
